@@ -513,6 +513,97 @@ class OpProgramCall(Contract):
 
 
 @register
+class OpProgramAsCode(Contract):
+    """OpProgram.as_code(name): the printed Python source, once executed, defines a function of the program's inputs that
+    returns -- for every binding -- the value OpProgram.__call__ computes (contract OpProgramCall): one local per node in the
+    same numbering (constants, inputs, operations), each operation applied to the locals at its arg ids, a make_tuple node
+    printed as a TUPLE DISPLAY of its arguments (a one-component tuple stays a tuple), the last local returned.
+    The source is really executed here (with `funsor.ops` replaced by opaque constructors), constants are numbers, ops have
+    no parameters (constants that do not print as Python literals and parametrised ops are recorded known findings of the
+    bounded tier).  structure bound: the listed programs (<= 2 constants, <= 2 inputs, <= 3 operations)."""
+
+    props = ("C18",)
+    file = "funsor/ops/program.py"
+    qualname = "OpProgram.as_code"
+    total = True
+    mutants = (
+        ("one-component tuples lose their comma", 'let(f"{op}({args},)")', 'let(f"{op}({args})")'),
+        ("returns the first local", '        lines.append(f"    return v{len(lines) - start - 1}")', '        lines.append(f"    return v0")'),
+        ("inputs numbered before constants", "        for c in self.constants:\n            let(c)\n        for name in self.inputs:\n            let(name)", "        for name in self.inputs:\n            let(name)\n        for c in self.constants:\n            let(c)"),
+    )
+
+    PROGS = {
+        "no-ops": ((1.5,), ("x",), ()),
+        "unary": ((), ("x",), (("f", (0,)),)),
+        "ops2": ((2.0, 3.0), ("x", "y"), (("g", (2, 0)), ("h", (4, 3)), ("f", (5,)))),
+        "tuple2": ((0.5,), ("x", "y"), (("g", (1, 2)), ("TUPLE", (3, 0)))),
+        "tuple1": ((), ("x", "y"), (("g", (0, 1)), ("TUPLE", (2,)))),
+        "nested-tuple1": ((), ("x",), (("TUPLE", (0,)), ("f", (0,)), ("TUPLE", (1, 2)))),
+        "shared": ((), ("x",), (("f", (0,)), ("g", (1, 1)))),
+    }
+
+    def structures(self, tier):
+        for k in self.PROGS:
+            yield k, k
+
+    def build(self, p, key):
+        consts, inputs, opspec = self.PROGS[key]
+
+        class OpT:
+            defaults = {}
+
+            def __init__(self, name):
+                self.name = name
+
+            def __repr__(self):
+                return "ops." + self.name
+
+            def __call__(self, *a):
+                return ("op", self.name) + a
+
+        def make_tuple(*a):
+            return a
+
+        opsd = {n: OpT(n) for n in "fgh"}
+
+        class Self:
+            backend = "numpy"
+
+        s = Self()
+        s.constants, s.inputs = tuple(consts), tuple(inputs)
+        s.operations = tuple(((make_tuple if n == "TUPLE" else opsd[n]), ids) for n, ids in opspec)
+        po, _ = core.make_callable(core.locate("funsor/ops/program.py", "_print_op"), dict(make_tuple=make_tuple, type=type, map=map, str=str, repr=repr))
+        return Ctx(args=(s,), namespace=dict(_print_op=po, len=len, repr=repr), s=s, opsd=opsd, make_tuple=make_tuple)
+
+    def ensures(self, ctx, result):
+        s = ctx.s
+        if not isinstance(result, str):
+            return [("returns_source_text", False)]
+        import types
+
+        stub = types.SimpleNamespace(set_backend=lambda b: None, ops=types.SimpleNamespace(**ctx.opsd))
+        real_import = __import__
+
+        def imp(name, *a, **k):
+            if name == "funsor":
+                return stub
+            return real_import(name, *a, **k)
+
+        g = {"__builtins__": dict(__builtins__) if isinstance(__builtins__, dict) else dict(vars(__builtins__))}
+        g["__builtins__"]["__import__"] = imp
+        try:
+            exec(result, g)
+            bindings = {n: "val_" + n for n in s.inputs}
+            got = g["program"](**bindings)
+        except Exception as e:  # the printed source must at least run
+            return [("printed_source_runs", False)]
+        env = list(s.constants) + ["val_" + n for n in s.inputs]
+        for op, ids in s.operations:
+            env.append(op(*[env[i] for i in ids]))
+        return [("printed_source_runs", True), ("printed_source_computes_the_programs_value", got == env[-1])]
+
+
+@register
 class LowerContraction(Contract):
     """compiler._lower_contraction(x): a reduction-free Contraction of n terms is lowered to nested Binary(bin_op, ., .) nodes
     whose leaves are EXACTLY the lowered terms, each once, in their original order (any bracketing: bin_op is associative, its
